@@ -213,6 +213,15 @@ def native_branchy(run, pid="C01"):
             break
     run.bounded.append({"what": "real compiled model of a definition built with ui.Model(proactive_simplify=True) (update expressions given in shuffled order) vs the user's own expressions", "bound": "1 program x 2 CSE settings x 8 calls", "failures": sf, "counted_as_proved": False})
     run.bounded.append({"what": "real compiled model of a program in which several statements only forward an input (identity-updated states, a state set to a control / calibration value)", "bound": "1 program x 2 CSE settings x 5 calls", "failures": pf, "counted_as_proved": False})
+    if pid == "C01":
+        # physically tiny constants (6.7e-11 ... 1.4e-23), each output compared relative to its OWN magnitude (C08 runs the same native)
+        from checks import C08
+
+        run.native_runs += 1
+        tp, tsc2 = C08.native_tiny_constant(run.seed)
+        run.bounded.append({"what": "filter of a model whose constants are physically tiny (6.674e-11, 3.3e-12, 1.6e-19, 1.4e-23): state update and Jacobians, CSE on and off, each entry relative to its own magnitude", "bound": "1 model x 2 CSE settings", "failures": len(tp), "counted_as_proved": False})
+        for p in tp[:1]:
+            run.findings.append(Finding("C01.py.native_tiny_constant", "tiny-constant", f"model with constants 6.674e-11 ... 1.38e-23: {p}", {"language": "python", "inputs": {"tiny_constant": True, "seed": run.seed}, "model_definition": tsc2.describe(), "oracle_verdict": tp[:4]}, True))
 
 
 def dependency_checks(run, n_programs):
@@ -286,6 +295,10 @@ def check(run):
 
 def replay_file(payload):
     inp = payload["inputs"]
+    if inp.get("tiny_constant"):
+        from checks import C08
+
+        return C08.replay_file(payload)
     if inp.get("twin_models"):
         tw, _ = native_twin_models(inp.get("seed", 0))
         print("replay C01 (twin models in one process):", tw[:3] or "every model computes its own expressions")
